@@ -55,6 +55,15 @@ func genC36(t *rapid.T) c36Case {
 	pool := []int{0, 1, 2, 3, 4, 10, 11, 30, 31, 32, 33, 34, 35, 50, 51, 52}
 	genQ := rapid.Custom(func(t *rapid.T) c36Query {
 		q := c36Query{Signers: rapid.SliceOfN(rapid.SampledFrom(pool), 0, 3).Draw(t, "signers")}
+		if rapid.Bool().Draw(t, "focus") {
+			// ask again and again about the few accounts that are registered / removed as relayers in these histories,
+			// alone or next to an outsider: the same address is then judged before and after its removal
+			q.Signers = []int{rapid.IntRange(30, 34).Draw(t, "relayer")}
+			if rapid.IntRange(0, 3).Draw(t, "with-outsider") == 0 {
+				q.Signers = append(q.Signers, rapid.IntRange(50, 52).Draw(t, "outsider"))
+			}
+			return q
+		}
 		if rapid.IntRange(0, 3).Draw(t, "multi") == 0 {
 			q.Multi = rapid.SliceOfNDistinct(rapid.SampledFrom(pool), 2, 6, func(i int) int { return i }).Draw(t, "multikeys")
 		}
